@@ -86,6 +86,7 @@ def jobs(tier, seed):
                 continue    # 1/g**2 in seven scales: feasibility queries take minutes; g stays concrete here
             out.append({'fn': 'conv_user', 'cfg': {'prog': p, 'flav': flavs[(p + i) % 2], 'symfac': sf}})
     # canaries: same harness, one obligation negated
+    out.append({'fn': 'conv_with_converter', 'cfg': {}})
     out.append({'fn': 'conv_pair', 'cfg': {'flav': 'dec', 'pairs': [['mi', 'in']], 'canary': True},
                 'canary': True})
     out.append({'fn': 'conv_user', 'cfg': {'prog': 0, 'flav': 'frac', 'canary': True},
@@ -136,6 +137,48 @@ def conv_pair(E, cfg):
     E.check(back.amount == src, 'round-trip-identical')
     if cfg.get('canary'):
         E.check(r.amount != expected, 'canary-convert-scale')
+
+
+def conv_with_converter(E, cfg):
+    """a converter registered on a type that has a reference unit (a table with rounded factors, a function) is at
+    most a fall-back: conversions between units of the type stay exact ratios of scales, while it is registered and
+    after it was removed"""
+    from decimalfp import Decimal
+    from quantity import Quantity, TableConverter
+    import quantity.predefined as pre
+    kind = E.choice('converter', ['table-mapping', 'table-list', 'function'])
+    cls, pairs, table = pre.Length, [('km', 'mi'), ('mi', 'km'), ('km', 'm'), ('m', 'mi'), ('in', 'km')], \
+        [(pre.KILOMETRE, pre.MILE, Decimal('0.621371'), 0), (pre.METRE, pre.INCH, Decimal('39.37'), 0)]
+    if kind == 'table-mapping':
+        conv = TableConverter({(r[0], r[1]): (r[2], r[3]) for r in table})
+    elif kind == 'table-list':
+        conv = TableConverter(table)
+    else:
+        def conv(qty, to_unit):
+            return qty.amount * Decimal('1.5')
+    cls.register_converter(conv)
+    a = E.rational('a', 'dec')
+    us, vs = E.choice('pair', pairs)
+    u, v = C.unit(us), C.unit(vs)
+
+    def checks(tag):
+        q = Quantity(a, u)
+        r = q.convert(v)
+        expected = a * C.scale(u) / C.scale(v)
+        E.check(r.unit is v and r.amount == expected, 'convert-scale-with-registered-converter',
+                key='converter-on-linear-type:convert' + tag, info=[kind, us, vs])
+        E.check(q.equiv_amount(v) == expected, 'equiv-amount-with-registered-converter',
+                key='converter-on-linear-type:equiv' + tag, info=[kind, us, vs])
+        E.check(r == q and q == r, 'converted-equals-original-with-registered-converter',
+                key='converter-on-linear-type:eq' + tag, info=[kind, us, vs])
+        E.check(q.convert(pre.METRE).convert(v).amount == expected, 'via-metre-with-registered-converter',
+                key='converter-on-linear-type:via' + tag, info=[kind, us, vs])
+        E.check(r.convert(u).amount == a, 'round-trip-with-registered-converter',
+                key='converter-on-linear-type:round-trip' + tag, info=[kind, us, vs])
+    checks('')
+    cls.remove_converter(conv)
+    checks(':after-removal')
+    E.check(E.n_roundings() in (0, None), 'no-rounding-without-quantum')
 
 
 def conv_triple(E, cfg):
